@@ -40,6 +40,7 @@ func init() {
 	suites["opts"] = suiteOpts
 	replayers["optpair"] = replayOptPair
 	replayers["optline"] = replayOptLine
+	replayers["optempty"] = replayOptEmpty
 }
 
 const maxMeta = 100 * 1024 * 1024
@@ -206,6 +207,90 @@ func (b boundsImg) At(x, y int) color.Color {
 	return color.NRGBA{uint8(x), uint8(y), 7, 255}
 }
 
+// ---------- empty rectangles on concrete image types ----------
+
+// Every rectangle here has Empty() == true; the literal Min/Max are kept (image.Rect would swap them).
+var optEmptyRects = []image.Rectangle{
+	{Min: image.Pt(1, 1), Max: image.Pt(0, 0)},         // -1 x -1
+	{Min: image.Pt(4, 4), Max: image.Pt(0, 0)},         // -4 x -4
+	{Min: image.Pt(3, 4), Max: image.Pt(0, 0)},         // -3 x -4
+	{Min: image.Pt(16, 16), Max: image.Pt(0, 0)},       // -16 x -16
+	{Min: image.Pt(20, 20), Max: image.Pt(0, 0)},       // -20 x -20
+	{Min: image.Pt(16, 1), Max: image.Pt(0, 0)},        // -16 x -1
+	{Min: image.Pt(16383, 16383), Max: image.Pt(0, 0)}, // -16383 x -16383
+	{Min: image.Pt(0, 0), Max: image.Pt(math.MinInt32, math.MinInt32)},
+	{Min: image.Pt(3, 0), Max: image.Pt(0, 0)}, // Dx<0, Dy==0
+	{Min: image.Pt(3, 0), Max: image.Pt(0, 5)}, // Dx<0, Dy>0
+	{Min: image.Pt(0, 3), Max: image.Pt(5, 0)}, // Dx>0, Dy<0
+	{Min: image.Pt(0, 0), Max: image.Pt(0, 0)}, // 0x0
+	{Min: image.Pt(5, 7), Max: image.Pt(5, 7)}, // 0x0 away from the origin
+	{Min: image.Pt(0, 0), Max: image.Pt(0, 9)}, // 0xN
+	{Min: image.Pt(0, 0), Max: image.Pt(9, 0)}, // Nx0
+}
+
+var optEmptyTypes = []string{"NRGBA", "RGBA", "Gray", "NRGBA64", "Paletted", "generic", "generic+alpha"}
+
+var optEmptyOpts = []func() *webp.EncoderOptions{
+	func() *webp.EncoderOptions { return nil },
+	func() *webp.EncoderOptions { return webp.DefaultOptions() },
+	func() *webp.EncoderOptions { return &webp.EncoderOptions{Quality: 50, Method: 0, Preprocessing: 2} },
+	func() *webp.EncoderOptions { return &webp.EncoderOptions{Lossless: true, Quality: 75} },
+}
+
+func optEmptyImage(ri, ti int) image.Image {
+	r := optEmptyRects[ri]
+	switch optEmptyTypes[ti] {
+	case "NRGBA":
+		return &image.NRGBA{Pix: make([]byte, 4096), Stride: 64, Rect: r}
+	case "RGBA":
+		return &image.RGBA{Pix: make([]byte, 4096), Stride: 64, Rect: r}
+	case "Gray":
+		return &image.Gray{Pix: make([]byte, 4096), Stride: 64, Rect: r}
+	case "NRGBA64":
+		return &image.NRGBA64{Pix: make([]byte, 4096), Stride: 128, Rect: r}
+	case "Paletted":
+		return &image.Paletted{Pix: make([]byte, 4096), Stride: 64, Rect: r, Palette: color.Palette{color.NRGBA{1, 2, 3, 255}, color.NRGBA{9, 8, 7, 255}}}
+	case "generic":
+		return boundsImg{r, false}
+	}
+	return boundsImg{r, true}
+}
+
+// emptyBoundsCheck runs the real Encode on an empty image; "" when it returned the dimension
+// error without writing, otherwise the finding class and a description.
+func emptyBoundsCheck(ri, ti, oi int) (bad, detail string) {
+	img := optEmptyImage(ri, ti)
+	var buf bytes.Buffer
+	cls, pm := guard(func() string { return optErrClass(webp.Encode(&buf, img, optEmptyOpts[oi]())) })
+	where := fmt.Sprintf("Encode(%s with Bounds %v, options #%d)", optEmptyTypes[ti], optEmptyRects[ri], oi)
+	switch {
+	case cls == "panic":
+		return "panic:" + panicClass(pm), where + " panicked: " + pm
+	case cls == "ok":
+		return "accepted", fmt.Sprintf("%s returned nil for an empty image and wrote %d bytes", where, buf.Len())
+	case cls != "err dimsEmpty":
+		return "wrong-error", where + " returned " + cls + ", want the invalid-dimensions error"
+	case buf.Len() != 0:
+		return "wrote-on-error", fmt.Sprintf("%s failed but wrote %d bytes", where, buf.Len())
+	}
+	return "", ""
+}
+
+func replayOptEmpty(in map[string]any) int {
+	num := func(k string) int { v, _ := in[k].(float64); return int(v) }
+	ri, ti, oi := num("rect"), num("type"), num("opts")
+	if ri < 0 || ri >= len(optEmptyRects) || ti < 0 || ti >= len(optEmptyTypes) || oi < 0 || oi >= len(optEmptyOpts) {
+		return 2
+	}
+	bad, detail := emptyBoundsCheck(ri, ti, oi)
+	if bad != "" {
+		fmt.Println("go:   " + bad + ": " + detail)
+		return 1
+	}
+	fmt.Println("go:   err dimsEmpty, nothing written")
+	return 0
+}
+
 // ---------- boundary values ----------
 
 type intField struct {
@@ -370,7 +455,9 @@ type optCase struct {
 }
 
 var optDims = [][2]int{{1, 1}, {16383, 1}, {1, 16383}, {16383, 16383}, {16384, 1}, {1, 16384}, {0, 5}, {5, 0}, {-3, 4},
-	{7, 5}, {24, 24}, {math.MaxInt32, 2}, {2, math.MinInt32}, {16384, 16384}}
+	{7, 5}, {24, 24}, {math.MaxInt32, 2}, {2, math.MinInt32}, {16384, 16384},
+	// both axes inverted (Min > Max on x AND y): the rectangle is empty although Dx()*Dy() > 0
+	{-3, -4}, {-1, -1}, {-16, -16}, {-16383, -16383}, {math.MinInt32, math.MinInt32}}
 
 var optFlags = []string{"-", "-", "-", "-", "-", "-", "-", "-", "-", "-", "A", "A", "A", "A", "A", "A", "A", "A", "W", "I", "WI", "WA", "IA", "WIA"}
 
@@ -863,7 +950,7 @@ var lossyOnly = []struct {
 
 func suiteOpts(rep *Report) error {
 	rich := rep.Tier == "thorough"
-	rep.Rule = "records: EncoderOptions values = fixed (nil, zero value, DefaultOptions, every preset) + single-field boundaries on a valid base + all pairs of fields × all pairs of boundary values {min-1,min,min+1,default,max-1,max,max+1,-1,-2,0,MinInt,MaxInt} (floats: ±0, subnormals, 99.99999, 100, 100.00001, -0.0001, NaN×3, ±Inf, ±MaxFloat32; metadata nil/empty/1/5/100MB/100MB+1) on valid bases (sampled in quick, complete ×60 bases in thorough) + full product of the small fields + fully random boundary records; each record goes through validateConfig (hook) and, with a writer/image situation (nil writer, nil image, dims 1x1 … 16384, ≤0, alpha), through Encode's front end, and through the Lean model; encodes: real webp.Encode on images ≤ 24x24 (lossy/lossless, with/without alpha) for sentinel/default pairs, nil vs DefaultOptions, lossy-only options under Lossless, EmulateJpegSize, Preset, boundary values, boundary dimensions, records the model resolves identically; non-trivial = record accepted by validateConfig or rejected by a check after the first one, and every encode pair whose base encode succeeded; distinct = FNV of the encoded record + situation"
+	rep.Rule = "records: EncoderOptions values = fixed (nil, zero value, DefaultOptions, every preset) + single-field boundaries on a valid base + all pairs of fields × all pairs of boundary values {min-1,min,min+1,default,max-1,max,max+1,-1,-2,0,MinInt,MaxInt} (floats: ±0, subnormals, 99.99999, 100, 100.00001, -0.0001, NaN×3, ±Inf, ±MaxFloat32; metadata nil/empty/1/5/100MB/100MB+1) on valid bases (sampled in quick, complete ×60 bases in thorough) + full product of the small fields + fully random boundary records; each record goes through validateConfig (hook) and, with a writer/image situation (nil writer, nil image, dims 1x1 … 16384, ≤0, alpha), through Encode's front end, and through the Lean model (dimension pairs include Min>Max on BOTH axes: -3x-4, -1x-1, -16x-16, -16383x-16383, MinInt32xMinInt32); empty rectangles of every sign pattern on NRGBA/RGBA/Gray/NRGBA64/Paletted/generic images through the real Encode under a recover guard (must return the dimension error, write nothing); encodes: real webp.Encode on images ≤ 24x24 (lossy/lossless, with/without alpha) for sentinel/default pairs, nil vs DefaultOptions, lossy-only options under Lossless, EmulateJpegSize, Preset, boundary values, boundary dimensions, records the model resolves identically; non-trivial = record accepted by validateConfig or rejected by a check after the first one, and every encode pair whose base encode succeeded; distinct = FNV of the encoded record + situation"
 
 	var lines, goOut, what []string
 	emit := func(line, g, w string) { lines = append(lines, line); goOut = append(goOut, g); what = append(what, w) }
@@ -1179,6 +1266,34 @@ func suiteOpts(rep *Report) error {
 			E.encode(im, &webp.EncoderOptions{Lossless: true, Quality: 20, Method: 1})
 			rep.Count(fmt.Sprintf("dims:%dx%d", d[0], d[1]))
 		}
+	}
+
+	// empty rectangles on the concrete image types (every sign pattern of Dx/Dy ≤ 0, incl. Min > Max
+	// on BOTH axes, where Dx()*Dy() > 0): the real Encode, under a recover guard, must return the
+	// dimension error and write nothing — with nil, default, lossy and lossless options.
+	for ri, rc := range optEmptyRects {
+		for ti := range optEmptyTypes {
+			for oi := range optEmptyOpts {
+				if bad, detail := emptyBoundsCheck(ri, ti, oi); bad != "" {
+					rep.Add(Finding{Kind: "property", Property: "C20", Signature: "empty-bounds:" + bad,
+						Detail: detail, Input: map[string]any{"op": "optempty", "rect": ri, "type": ti, "opts": oi}})
+				}
+				rep.Eval(true, []byte(fmt.Sprintf("optempty %d %d %d", ri, ti, oi)))
+			}
+		}
+		sx, sy := "neg", "neg"
+		if rc.Dx() == 0 {
+			sx = "zero"
+		}
+		if rc.Dy() == 0 {
+			sy = "zero"
+		} else if rc.Dy() > 0 {
+			sy = "pos"
+		}
+		if rc.Dx() > 0 {
+			sx = "pos"
+		}
+		rep.Count("empty-bounds:dx-" + sx + ":dy-" + sy)
 	}
 
 	// boundary values: must not panic, must decode; sensitivity of each resolved field
